@@ -138,8 +138,8 @@ func init() {
 			return nil
 		},
 		Phases: []fw.Phase{
-			{Name: "blacklist-membership", Space: "every class string of length 1..4 (quick) / 1..5 (thorough) over the 26 class characters: real blacklist test == membership in the shipped table", Share: 2,
-				Run: func(w *fw.W) { w.Trie(classSymbols(), 1, w.Pick(4, 5)) }, Eval: evalC08Membership},
+			{Name: "blacklist-membership", Space: "every class string of length 1..5 over the 26 class characters (12.4 M): real blacklist test == membership in the shipped table", Share: 2,
+				Run: func(w *fw.W) { w.Trie(classSymbols(), 1, 5) }, Eval: evalC08Membership},
 			{Name: "trie-S1-bytes", Space: "S1^<=4", Share: 3, Run: func(w *fw.W) { w.Trie(alpha.S1, 0, 4) }, Eval: evalC08},
 			{Name: "trie-S2-fragments", Space: "S2^<=3 (quick) / <=4 (thorough)", Share: 3, Run: func(w *fw.W) { w.Trie(alpha.S2, 1, w.Pick(3, 4)) }, Eval: evalC08},
 			{Name: "trie-S3-tokens", Space: "S3^<=4 (quick) / <=5 (thorough)", Share: 4, Run: func(w *fw.W) { w.Trie(alpha.S3, 1, w.Pick(4, 5)) }, Eval: evalC08},
